@@ -67,7 +67,12 @@ func lockClass(recv ssa.Value) string {
 		break
 	}
 	t := v.Type()
-	if p, ok := t.Underlying().(*types.Pointer); ok {
+	for {
+		// captured variables are **T: strip every pointer level
+		p, ok := t.Underlying().(*types.Pointer)
+		if !ok {
+			break
+		}
 		t = p.Elem()
 	}
 	if n, ok := t.(*types.Named); ok {
